@@ -260,6 +260,19 @@ func TestProp_C09_deep(t *testing.T) {
 	})
 }
 
+// C10 with invalid marks in the history (see TestProp_C09_marks): after a mark removed the losing
+// chain, Clean prunes past the first header of the former side branch.
+func TestProp_C10_marks(t *testing.T) {
+	col := evid.For("C10", "marks", genDesc+" plus MarkHeaderInvalid / MarkHeaderNotInvalid of held headers; before/after snapshot equality around every Clean, verdict and lookup oracles afterwards (headers removed by a mark: forgotten or remembered with the true height, never in the most-work chain); non-trivial = a mark followed by a Clean with best-chain history served from storage")
+	w := map[string]int{"extend": 9, "dup": 1, "late": 1, "clean": 5, "mark": 2, "unmark": 1}
+	rapid.Check(t, func(t *rapid.T) {
+		runHistory(t, col, Focus{ID: "C10", CleanSnap: true, Verdicts: true, Lookups: true, Marks: true}, w, func(m *M) bool {
+			served := m.cleans > 0 && m.insts[0].repo.Height() > m.depth
+			return (m.marksSide > 0 || m.marksOnBest > 0) && served
+		})
+	})
+}
+
 func TestProp_C10_deep(t *testing.T) {
 	col := evid.For("C10", "deep", deepDesc+"before/after snapshot equality around every real Clean (and the automatic clean), verdict and lookup oracles afterwards; non-trivial = a Clean with a side branch alive")
 	w := map[string]int{"extend": 8, "late": 1, "clean": 4, "dup": 1}
